@@ -14,6 +14,7 @@ var mergeProfiles = []gen.Profile{
 	gen.PTiny,
 	gen.PDeep.With(func(p *gen.Profile) { p.Scalars = withoutNull(p.Scalars); p.PArr = 0.3 }),
 	gen.PHostile.With(func(p *gen.Profile) { p.Scalars = withoutNull(p.Scalars); p.PArr = 0.25 }),
+	gen.PNumbers,
 }
 
 func c11Case(c *mon.Ctx, aText, bText string, o OptSet) {
